@@ -313,7 +313,7 @@ theorem ex_groups : GroupsOk exSlots false exSlots exGroups := by
   have hm1 : goMake 1 1 = .ok () 1 := by simp [goMake, maxAlloc]
   have hm2 : goMake 2 1 = .ok () 2 := by simp [goMake, maxAlloc]
   rw [exSlots_eq]
-  simp [exGroups, GroupsOk, GroupOk, ElOk, itemVals, knownTyp, critical, readKind, readUintLoop,
+  simp [exGroups, GroupsOk, GroupOk, ElOk, itemVals, knownTyp, critical, readKind, readNatLoop, natLenOk, readUintLoop,
     fits, hg, hm1, hm2, Res.bind, beDec, beDecMod]
   intro rest
   exact ⟨2, by rw [if_neg (by omega)]⟩
